@@ -35,6 +35,7 @@ HOSTILE_VALUES = [
     'unicode_escape', 'raw_unicode_escape', 'mbcs', 'oem', '-0', '00', '1_0',
     'utf_16_le', 'utf-16-be', 'big5', 'shift_jis', 'iso2022_jp', 'hz',
     'cp65001', 'string_escape', '7', '100', '4', '\xe9', '\xff',
+    '9' * 4300, '9' * 4301, '1' + '0' * 5000, '-' + '9' * 4400,
 ]
 HOSTILE_KEYS = [
     'length', 'indent', 'encoding', 'line_endings', 'format', 'type',
